@@ -21,9 +21,19 @@
    and the before/after-restart monitors on histories that contain such operations.
    "No open budget/updater": a budget that is open at the stop is lost with the process in
    the code as well (its reservation is in memory only); the theorem is about stops
-   between operations. *)
+   between operations.
+
+   Volumes "(available again if their files open)": the state carries the set of volume
+   data files that cannot be opened ([gone]; HideVolFile / RestoreVolFile move a file away
+   and back).  A start flags every stored volume available in the store and "ready" in
+   memory iff its file opened (c18_volumes_after_start), so a restart is transparent exactly
+   while the files that open are those that opened at the last start ([files_as_loaded],
+   part of [coh]; c18_restart_transparent_files_partial for histories in which files come
+   and go; c18_restart_needs_same_files shows the proviso is needed).  [benign] excludes,
+   besides the two findings, a step that changes which stored volumes' files open;
+   [benign0] does not. *)
 From HostdBase Require Import Base.
-From HostdRestart Require Import Model Proofs Proofs2.
+From HostdRestart Require Import Model Proofs Proofs2 Proofs3.
 
 (* every operation keeps what the managers hold in memory equal to what a start would load:
    sector-root cache, webhook map and scope tree, settings (with the revision), account
@@ -96,6 +106,95 @@ Theorem c18_restart_refuted_v2renew :
 Proof. exact restart_refuted_v2renew. Qed.
 Print Assumptions c18_restart_refuted_v2renew.
 
+(* ---- the store's rows of a v2 contract ---- *)
+
+(* Store.ReviseV2Contract (updateV2ContractSectors: skip the positions whose root is
+   unchanged, upsert the others, delete root_index >= len(new) when the list got shorter),
+   applied to rows that are the list the manager has cached, leaves exactly the new list:
+   no row of the old tail survives a shrink — to k > 0 roots or to none —, so what the next
+   start reads back is what the running manager serves ([Commit] in Model.v computes the
+   stored rows with this function; c18_step_keeps_coherence covers it) *)
+Theorem c18_v2_rows_after_revision : forall old new,
+  v2_rows_update (map Some old) old new = map Some new.
+Proof. exact v2_rows_update_dense. Qed.
+Print Assumptions c18_v2_rows_after_revision.
+
+(* ---- volumes whose data file does not open ---- *)
+
+(* every operation, including volume files being moved away and back, keeps memory equal
+   to what a start would load from the store (a volume is "ready" iff flagged available) *)
+Theorem c18_coherence_files_partial : forall l,
+  benign0_run init l = true -> coh0 (runs init l).
+Proof. exact (fun l H => runs_coh0 l init (proj1 coh_init) H). Qed.
+Print Assumptions c18_coherence_files_partial.
+
+(* restart transparency given the same set of openable files: whatever happened to the
+   volume files during the history, if at the stop the files that open are those that
+   opened at the last start, the restart changes no observation and no delivery *)
+Theorem c18_restart_transparent_files_partial : forall l,
+  benign0_run init l = true -> budgets (runs init l) = [] -> files_as_loaded (runs init l) ->
+  observe (restart (runs init l)) = observe (runs init l) /\
+  forall e, deliver (mem (restart (runs init l))) e = deliver (mem (runs init l)) e.
+Proof. exact restart_after_history_files. Qed.
+Print Assumptions c18_restart_transparent_files_partial.
+
+Theorem c18_restart_invisible_files_partial : forall l l',
+  benign0_run init l = true -> budgets (runs init l) = [] -> files_as_loaded (runs init l) ->
+  observations (restart (runs init l)) l' = observations (runs init l) l'.
+Proof. exact restart_invisible_files. Qed.
+Print Assumptions c18_restart_invisible_files_partial.
+
+(* what Volumes() reports after a start, from ANY state: every stored volume with its
+   read-only flag and size as stored, flagged available and "ready" iff its file opened at
+   this start *)
+Theorem c18_volumes_after_start : forall s,
+  volumes (restart s) =
+  map (fun v => (fst v, ((fst (fst (snd v)), snd (fst (snd v)), file_present s (fst v)), file_present s (fst v))))
+      (d_vols (db s)).
+Proof. exact restart_volumes. Qed.
+Print Assumptions c18_volumes_after_start.
+
+(* SetReadOnly / ResizeVolume are accepted after a start iff the volume's file opened *)
+Theorem c18_setreadonly_after_start : forall s id ro, In id (map fst (d_vols (db s))) ->
+  snd (step (restart s) (SetRO id ro)) = ODone (file_present s id).
+Proof. exact restart_setro_accepts. Qed.
+Print Assumptions c18_setreadonly_after_start.
+
+Theorem c18_resize_after_start : forall s id total, In id (map fst (d_vols (db s))) ->
+  snd (step (restart s) (GrowVol id total)) = ODone (file_present s id).
+Proof. exact restart_grow_accepts. Qed.
+Print Assumptions c18_resize_after_start.
+
+(* restoring the file restores availability at the next start, whatever the store said
+   before; while the file is away the volume is reported unavailable *)
+Theorem c18_restored_file_available : forall s id r t a,
+  In (id, (r, t, a)) (d_vols (db s)) ->
+  In (id, ((r, t, true), true)) (volumes (runs s [RestoreVolFile id; Restart])).
+Proof. exact restored_file_available. Qed.
+Print Assumptions c18_restored_file_available.
+
+Theorem c18_hidden_file_unavailable : forall s id r t a,
+  In (id, (r, t, a)) (d_vols (db s)) ->
+  In (id, ((r, t, false), false)) (volumes (runs s [HideVolFile id; Restart])).
+Proof. exact hidden_file_unavailable. Qed.
+Print Assumptions c18_hidden_file_unavailable.
+
+(* file away, start, file back, start: every observation and delivery is as before the
+   file went away, and a further restart changes nothing at all (not even the state) *)
+Theorem c18_hide_restore_roundtrip : forall s id,
+  coh s -> budgets s = [] -> file_present s id = true ->
+  let s2 := runs s [HideVolFile id; Restart; RestoreVolFile id; Restart] in
+  observe s2 = observe s /\ (forall e, deliver (mem s2) e = deliver (mem s) e) /\ restart s2 = s2.
+Proof. exact hide_restore_roundtrip. Qed.
+Print Assumptions c18_hide_restore_roundtrip.
+
+(* the proviso "if their files open" is needed: with a file missing the restart is visible *)
+Theorem c18_restart_needs_same_files :
+  benign0_run init missing_file_witness = true /\ budgets (runs init missing_file_witness) = [] /\
+  observe (restart (runs init missing_file_witness)) <> observe (runs init missing_file_witness).
+Proof. exact restart_not_transparent_when_file_missing. Qed.
+Print Assumptions c18_restart_needs_same_files.
+
 (* non-vacuity: a benign history with a v1 renewal, nested webhook scopes, two settings
    revisions and a closed budget; the hook registered for "alerts" and "alerts/info"
    receives an "alerts/info" event twice, before and after the restart *)
@@ -107,4 +206,16 @@ Example c18_nonvacuous :
   deliver (mem (restart (runs init l))) [1; 2]%N = [1; 1; 2]%N /\
   observe (runs init l) =
     OState [(0, []); (1, [3; 5])]%N [(1, (1, [[1]; [1; 2]])); (2, (2, [[]]))]%N (1, 8)%N [(0, 90); (1, 0)]%N [] 3%N.
+Proof. vm_compute. repeat split; reflexivity. Qed.
+
+(* non-vacuity of the volume statements: two volumes, one read-only; the file of volume 1
+   is away at one start (reported unavailable, SetReadOnly refused), back at the next *)
+Example c18_volume_files_nonvacuous :
+  let l := [AddVol 1 6; AddVol 2 4; SetRO 2 true; FormC 0 true 40; Commit 0 [3; 5]; Commit 0 [3]]%N in
+  let s := runs init l in
+  benign_run init l = true /\ budgets s = [] /\ file_present s 1 = true /\
+  volumes s = [(1, (false, 6, true, true)); (2, (true, 4, true, true))]%N /\
+  volumes (runs s [HideVolFile 1; Restart]) = [(1, (false, 6, false, false)); (2, (true, 4, true, true))]%N /\
+  snd (step (runs s [HideVolFile 1; Restart]) (SetRO 1 true)) = ODone false /\
+  observe (runs s [HideVolFile 1; Restart; RestoreVolFile 1; Restart]) = observe s.
 Proof. vm_compute. repeat split; reflexivity. Qed.
